@@ -62,8 +62,8 @@ def run(rep, tier, seed, keep=False):
         events = []
         texts = {}
 
-        def add(text):
-            o, p = parse_outcome(engine, text, exc)
+        def add(text, eng=None):
+            o, p = parse_outcome(eng or engine, text, exc)
             if isinstance(p, bool) or not isinstance(p, int):
                 o, p = 'other:position-not-int', -1
             i = len(events)
@@ -88,6 +88,24 @@ def run(rep, tier, seed, keep=False):
                 rep.note('model %s, real %s for tokens %s' % ('accepts' if model_ok else 'rejects', o, ' '.join(toks)))
         rep.extra['soup_sequences'] = nsoup
         rep.extra['soup_accept_reject_agreement'] = agree
+        # ---- G: the same on engines with other operator tables: a customised table (suffix, prefix and binary operators inserted
+        #      through insert_operator), the legacy table, an engine that allows calling values
+        custom_calls = (('*', True, '!', 'suf', True), ('-', False, '~', 'pre', False), ('*', True, '**', 'binr', True))
+        others = [('standard', custom_calls), ('legacy', ()), ('delegates', ())]
+        other_engines = []
+        for base, calls in others:
+            eng2 = c02.real_factory(base, calls).create()
+            other_engines.append(eng2)
+            r, dump = c02.gen(wd, 'soup_' + base, base, [calls], [], [], [], 2 if quick else 3, 0, ['atom'], mode='soup')
+            rep.tlc('Grammar/G token soups, %s table %s' % (base, 'with inserted operators' if calls else ''), r)
+            for st in tlaval.parse_dump(dump):
+                toks = [str(t) for t in st['toks']]
+                text, _, _ = c02.concretise(toks, rng, substitute=False)
+                o = add(text, eng2)
+                nsoup += 1
+                if (o == 'statement') != bool(st['out']['ok']) and len(rep.notes) < 8:
+                    rep.note('model %s, real %s for tokens %s (%s table)' % ('accepts' if st['out']['ok'] else 'rejects', o, ' '.join(toks), base))
+        rep.extra['soup_sequences_all_tables'] = nsoup
         # ---- G: escape shapes from Lexing's enumeration (every body <= n x 3 styles)
         alpha = '{39, 34, 96, 92, 120, 117, 85, 78, 123, 125, 97, 49, 56, 103, 110, 10}'
         cfg = 'SPECIFICATION Spec\nCONSTANTS\n Alphabet = %s\n MaxLen = %d\n Mode = "bodies"\n' % (alpha, 3 if quick else 4)
@@ -114,6 +132,10 @@ def run(rep, tier, seed, keep=False):
         for _ in range(n):
             k = rng.randint(4, 40)
             add(rng.choice(['', ' ', ' ', '']).join(rng.choice(TOKENS) for _ in range(k)))
+        for eng2 in other_engines:
+            for _ in range(n // 4):
+                k = rng.randint(2, 12)
+                add(rng.choice(['', ' ', ' ', '']).join(rng.choice(TOKENS + ['!', '~', '**', '(', '=>', '1', "'a'", 'true', 'x']) for _ in range(k)), eng2)
         for _ in range(n):
             t = rng.choice(VALID)
             for _m in range(rng.randint(1, 3)):
